@@ -987,7 +987,7 @@ def cmd_signops():
 # ------------------------------------------------------------------------------ Sum / Product
 
 def cmd_sp(vals, kind, cell=None):
-    line = 'sp ' + ' '.join(tok(v, kind) for v in vals)
+    line = ' '.join(['sp', kind] + [tok(v, kind) for v in vals])
     s = sum(vals)
     p = 1
     for v in vals:
